@@ -31,6 +31,7 @@ DOCS = [
     ("variable-argument", "subscription S($n: Int = 2) { t: tick(n: $n) { id a } }", {"n": 5}),
     ("variable-default", "subscription S($n: Int = 2) { t: tick(n: $n) { id a } }", {}),
     ("scalar-root", "subscription S { count }", None),
+    ("non-null-root", "subscription S { strict }", None),
     ("live-object-source", "subscription S { tick { id a name } }", None),
     ("three-fragment-levels", "subscription S { ...F1 } fragment F1 on Subscription { ...F2 } fragment F2 on Subscription { ... on Subscription { tick { id a } } }", None),
     ("four-named-fragments", "subscription S($n: Int = 2) { ...G1 } fragment G1 on Subscription { ...G2 } fragment G2 on Subscription { ...G3 } "
@@ -57,7 +58,7 @@ def payload(kind, i, schema):
         a["a"] = Bad()
     if kind == "E2":
         a["id"] = None
-    return {"tick": a, "count": i if kind != "E1" else Bad()}
+    return {"tick": a, "count": i if kind != "E1" else Bad(), "strict": None if kind == "E2" else Bad() if kind == "E1" else i}
 
 
 def shards(tier, seed):
@@ -234,7 +235,7 @@ def run_shard(item):
                 return parent["cdr_" + info.field_name]
             return lookup(parent, info.field_name)
 
-        fqs = {"%s.%s" % (td.name, f.name) for td in schema.types if td.kind == "OBJECT" for f in td.fields} - {"Subscription.tick", "Subscription.count", "A.name"}
+        fqs = {"%s.%s" % (td.name, f.name) for td in schema.types if td.kind == "OBJECT" for f in td.fields} - {"Subscription.tick", "Subscription.count", "Subscription.strict", "A.name"}
         eng2 = explore.engine_for("K-c14-cdr", schema, resolvers=fqs, custom_default_resolver=cdr)
         for label, text, variables in DOCS:
             text, located = doc.roundtrip(doc.parse(text))
@@ -248,7 +249,8 @@ def run_shard(item):
                         continue
                     decoy = payload("W", 50 + i, schema)
                     real = dict(ev)
-                    raw = {"tick": decoy["tick"], "count": 1000 + i, "cdr_tick": real["tick"], "cdr_count": real["count"]}
+                    raw = {"tick": decoy["tick"], "count": 1000 + i, "strict": 2000 + i, "cdr_tick": real["tick"], "cdr_count": real["count"],
+                           "cdr_strict": real["strict"]}
                     if isinstance(real["tick"], dict):
                         a = dict(real["tick"])
                         a["cdr_name"] = a.get("name")
